@@ -17,7 +17,7 @@ use rsdd::builder::sdd::CompressionSddBuilder;
 use rsdd::builder::BottomUpBuilder;
 use rsdd::constants::primes;
 use rsdd::repr::{BddPtr, Cnf, DDNNFPtr, Literal, PartialModel, SddPtr, VTree, VarLabel, VarOrder, WmcParams};
-use rsdd::util::semirings::{FiniteField, RealSemiring};
+use rsdd::util::semirings::{ExpectedUtility, FiniteField, RealSemiring};
 use serde_json::{json, Value};
 use std::collections::HashMap;
 
@@ -571,6 +571,84 @@ fn optimum_cfg(cfg: &WCfg, ctx: &Ctx) -> Report {
                 }
             }
         }
+        // maximum expected utility: the two table variables at the smallest levels are decisions (unit weight), the
+        // three at the largest levels carry non-negative utilities, all other variables are chance variables
+        {
+            let level_of = |l: usize| if cfg.reversed { w - 1 - l } else { l };
+            let mut by_level: Vec<usize> = (0..n).collect();
+            by_level.sort_by_key(|&v| level_of(cfg.labels[v]));
+            let (d0, d1) = (by_level[0], by_level[1]);
+            let rewarded: Vec<usize> = by_level[n - 3..].to_vec();
+            let eu_w = |v: usize| -> ((f64, f64), (f64, f64)) {
+                if v == d0 || v == d1 {
+                    return ((1.0, 0.0), (1.0, 0.0));
+                }
+                let p = real_w(cfg.labels[v]).1;
+                let u = if rewarded.contains(&v) { 1.0 + (v % 3) as f64 } else { 0.0 };
+                ((1.0 - p, 0.0), (p, p * u))
+            };
+            // the count of a BDD that was not smoothed: a sub-function contributes only the variables it depends on
+            fn dep(g: &Big, order: &[usize], w: &dyn Fn(usize) -> ((f64, f64), (f64, f64))) -> (f64, f64) {
+                if g.is_false() {
+                    return (0.0, 0.0);
+                }
+                if g.is_true() {
+                    return (1.0, 0.0);
+                }
+                let v = *order.iter().find(|&&v| g.depends_on(v)).unwrap();
+                let (lo, hi) = (dep(&g.cofactor(v, false), order, w), dep(&g.cofactor(v, true), order, w));
+                let (wl, wh) = w(v);
+                let m = |a: (f64, f64), b: (f64, f64)| (a.0 * b.0, a.0 * b.1 + a.1 * b.0);
+                let (x, y) = (m(wl, lo), m(wh, hi));
+                (x.0 + y.0, x.1 + y.1)
+            }
+            let params_eu: WmcParams<ExpectedUtility> = WmcParams::new(
+                (0..w)
+                    .map(|l| {
+                        let (lo, hi) = match cfg.idx(l) {
+                            Some(v) => eu_w(v),
+                            None => ((0.5, 0.0), (0.5, 0.0)),
+                        };
+                        (VarLabel::new(l as u64), (ExpectedUtility(lo.0, lo.1), ExpectedUtility(hi.0, hi.1)))
+                    })
+                    .collect::<HashMap<_, _>>(),
+            );
+            for q in [vec![d0], vec![d0, d1], vec![d1, d0]] {
+                let mut vals: Vec<f64> = Vec::new();
+                for a in 0..(1usize << q.len()) {
+                    let mut g = want.clone();
+                    for (k, &v) in q.iter().enumerate() {
+                        g = g.cofactor(v, (a >> k) & 1 == 1);
+                    }
+                    vals.push(dep(&g, &by_level, &eu_w).1);
+                }
+                let best = vals.iter().cloned().fold(f64::MIN, f64::max);
+                let qvars: Vec<VarLabel> = q.iter().map(|&v| VarLabel::new(cfg.labels[v] as u64)).collect();
+                for alg in ["meu", "bb<ExpectedUtility>"] {
+                    rep.transitions += 1;
+                    rep.evaluations += 1;
+                    match guarded(|| if alg == "meu" { p.meu(&qvars, w, &params_eu) } else { p.bb(&qvars, w, &params_eu) }) {
+                        Err(e) => viol(&mut rep, &format!("optimum:{}", alg), cfg, "wide_optimum", format!("{} of {} with decision table variables {:?} panicked: {}", alg, name, q, e)),
+                        Ok((val, m)) => {
+                            let mut bits = 0usize;
+                            let mut ok = true;
+                            for (k, l) in qvars.iter().enumerate() {
+                                match m.get(*l) {
+                                    Some(true) => bits |= 1 << k,
+                                    Some(false) => {}
+                                    None => ok = false,
+                                }
+                            }
+                            if val.1 != best {
+                                viol(&mut rep, &format!("optimum:{}", alg), cfg, "wide_optimum", format!("{} of {} with decision table variables {:?} returns expected utility {}, the maximum over the decision assignments is {} (values {:?})", alg, name, q, val.1, best, vals));
+                            } else if !ok || vals[bits] != best {
+                                viol(&mut rep, &format!("optimum:{}", alg), cfg, "wide_optimum", format!("{} of {} with decision table variables {:?}: the returned decision {:?} does not attain the optimum {}", alg, name, q, m, best));
+                            }
+                        }
+                    }
+                }
+            }
+        }
         rep.states += 1;
     }
     rep.traces += 1;
@@ -580,7 +658,7 @@ fn optimum_cfg(cfg: &WCfg, ctx: &Ctx) -> Report {
 pub fn optimum(ctx: &Ctx) -> Report {
     let cfgs: Vec<WCfg> = configs(ctx).into_iter().filter(|c| c.width <= 130).collect();
     let mut r = par_run(ctx, &cfgs, |_, c| optimum_cfg(c, ctx));
-    r.bound("wide_managers", json!({"configurations": cfgs.iter().map(|c| c.json()).collect::<Vec<_>>(), "functions": "rule-defined families over the 8 table variables", "query_lists": "every single table variable, every ordered pair, a rotating triple", "checks": "marginal_map and bb<RealSemiring>: value equals the brute-force maximum and the returned assignment attains it"}));
+    r.bound("wide_managers", json!({"configurations": cfgs.iter().map(|c| c.json()).collect::<Vec<_>>(), "functions": "rule-defined families over the 8 table variables", "query_lists": "every single table variable, every ordered pair, a rotating triple", "checks": "marginal_map and bb<RealSemiring>: value equals the brute-force maximum and the returned assignment attains it; meu and bb<ExpectedUtility> with the two lowest-level table variables as decisions and utilities on the three highest-level ones against the depends-on recursion"}));
     r.add_extra("wide_manager_optimisation_queries", r.transitions);
     r
 }
